@@ -67,3 +67,32 @@ def usb2_crc16_field(crc16):
     k is bit k of the 16-bit little-endian field."""
     inv = [~b for b in bitlist(crc16)]
     return frombits(list(reversed(inv)))
+
+
+# ---------------------------------------------------------------- generic "USB style" CRC (USB 2.0 §8.3.5, USB 3.2 §7.2.1.1.2 /
+# §7.2.1.2.3 / §7.2.2.1.3): shift register seeded with all ones, data bits enter LSB first, the remainder is inverted and
+# sent most-significant register bit first (so the received little-endian field is the bit-reversed, inverted register).
+CRC5_TAPS = 0b00101            # x^5 + x^2 + 1
+CRC16_USB2_TAPS = 0x8005       # x^16 + x^15 + x^2 + 1
+CRC16_USB3_TAPS = 0x100B       # x^16 + x^12 + x^3 + x + 1
+CRC32_TAPS = 0x04C11DB7        # x^32 + x^26 + x^23 + x^22 + x^16 + x^12 + x^11 + x^10 + x^8 + x^7 + x^5 + x^4 + x^2 + x + 1
+
+
+def crc_step(reg, data, taps, nbits=None):
+    """Feed data bits [0..nbits) (LSB first) into the register `reg` (a BV of the CRC's width)."""
+    w = reg.size()
+    bl = bitlist(data)[: (nbits if nbits is not None else data.size())]
+    return frombits(crc_serial(bitlist(reg), bl, taps, w))
+
+
+def crc_field(reg):
+    """The check field as it appears in a little-endian word: inverted register, bit-reversed."""
+    return frombits(list(reversed([~b for b in bitlist(reg)])))
+
+
+def crc_of_bytes(data_bytes, taps, width):
+    """Concrete helper: CRC field of a byte string (python ints), for validating the spec on published vectors."""
+    reg = z3.BitVecVal((1 << width) - 1, width)
+    for b in data_bytes:
+        reg = z3.simplify(crc_step(reg, z3.BitVecVal(b, 8), taps))
+    return z3.simplify(crc_field(reg)).as_long()
